@@ -148,6 +148,35 @@ def g_dead_multi(freq=50):
 
 
 
+
+def g_pairsum(freq=100):
+    u = _u()
+    a = u.SinOsc.ar(freq)
+    b = u.SinOsc.ar(freq * 2)
+    c = u.SinOsc.ar(freq * 3)
+    d = u.SinOsc.ar(freq * 4)
+    e = u.SinOsc.ar(freq * 5)
+    f = u.SinOsc.ar(freq * 6)
+    # additions whose two operands are single-use additions themselves, and
+    # the same with products feeding sums and differences
+    u.Out.ar(0, [(a + b) + (c + d), (a * b + c) + (d * e + f),
+                 (c - d) + (e - f), ((a + c) + (b + d)) + (e + f)])
+
+
+def make_factory(default, rate, chans):
+    """Graph functions made by one `def` statement: they share a code object
+    and differ in defaults, annotations and multichannel size."""
+    def g_made(freq: rate = default, amp=0.1, spread=chans):
+        u = _u()
+        u.Out.ar(0, u.SinOsc.ar(freq) * amp * u.Mix(spread))
+    return g_made
+
+
+g_factory_a = make_factory(220, 'kr', [1, 2])
+g_factory_b = make_factory(55, 'ar', [1, 2, 3])
+g_factory_c = make_factory(880.5, 'ir', 0.5)
+
+
 # build arguments kept in module-level objects and shared by every build of
 # these definitions (a table of build arguments, as user code has them)
 PREPEND = [0.25]
@@ -194,6 +223,10 @@ CORPUS = {
     'prepend': (g_prepend, {'prepend': PREPEND, 'rates': RATES,
                             'variants': VARIANTS}),
     'wrap_prepend': (g_wrap_prepend, {}),
+    'pairsum': (g_pairsum, {}),
+    'factory_a': (g_factory_a, {}),
+    'factory_b': (g_factory_b, {}),
+    'factory_c': (g_factory_c, {}),
 }
 
 
